@@ -63,6 +63,10 @@ func (c03Check) Units(tier string, seed int64) []Unit {
 		b, _ := json.Marshal(c03Args{Mode: "auto", Threshold: t, Shards: 1, Depth: int(t) + d})
 		us = append(us, Unit{Name: fmt.Sprintf("auto-threshold%d", t), Args: b})
 	}
+	for i := range c03SchedScenarios(tier) {
+		b, _ := json.Marshal(c03Args{Mode: "sched", Root: i})
+		us = append(us, Unit{Name: fmt.Sprintf("sched-%d", i), Args: b})
+	}
 	return us
 }
 
@@ -100,10 +104,37 @@ func c03Kinds(a Alpha) string {
 	return fmt.Sprint(sortedKeys(ks))
 }
 
+// c03SchedScenarios: a snapshot in flight while a client writes; afterwards the clock moves, SAVE is issued once more and
+// the server is "restarted" on the resulting files.  Every interleaving (preemption-bounded) must restore what some
+// serial order of the same commands restores: a write acknowledged before the last SAVE may not be missing.
+func c03SchedScenarios(tier string) []*SchedScenario {
+	bound := 2
+	if tier == "thorough" {
+		bound = 3
+	}
+	cfg := InstCfg{DataDir: "/data"}
+	after := []Action{adv(5), cmd("SAVE"), adv(5)}
+	return []*SchedScenario{
+		{Name: "SAVE || SET late v, then SAVE and restart", Cfg: cfg, Setup: []Action{cmd("SET", "a", "1"), adv(5)},
+			Threads: [][]Action{{cmd("SAVE")}, {cmd("SET", "late", "v")}}, Bound: bound, MaxExec: 60000, After: after, Restorable: true},
+		{Name: "SAVE || EXPIRE a 100 ; SET b 2, then SAVE and restart", Cfg: cfg, Setup: []Action{cmd("SET", "a", "1"), adv(5)},
+			Threads: [][]Action{{cmd("SAVE")}, {cmd("EXPIRE", "a", "100"), cmd("SET", "b", "2")}}, Bound: bound, MaxExec: 60000, After: after, Restorable: true},
+		{Name: "SAVE || SELECT 1 ; RPUSH l x, then SAVE and restart", Cfg: cfg, Setup: []Action{cmd("SET", "a", "1"), adv(5)},
+			Threads: [][]Action{{cmd("SAVE")}, {cmd("SELECT", "1"), cmd("RPUSH", "l", "x")}}, Bound: bound, MaxExec: 60000, After: after, Restorable: true},
+	}
+}
+
 func (c03Check) Run(u Unit, w *Worker) UnitResult {
 	var a c03Args
 	json.Unmarshal(u.Args, &a)
 	res := UnitResult{Stats: map[string]int64{}}
+	if a.Mode == "sched" {
+		sc := c03SchedScenarios(u.Tier)[a.Root]
+		if w.Case(sc.Name) {
+			judgeScenario("C03", sc, &res)
+		}
+		return res
+	}
 	alpha := c03Alphabet(a.Mode)
 	cfg := InstCfg{DataDir: "/data", RestoreSnapshot: true}
 	if a.Mode == "auto" {
